@@ -12,7 +12,11 @@ has_caller at the first instruction after every switch) against M's schedule for
 fiber_ptr_ok at every instruction in dev AND release; dev trace == release trace;
 (b) impl == S: printed output + outcome of rendered programs against eval_coroutine (vm_compute);
 metamorphic: a program prints the same when its whole body is moved into a fiber that is called once;
-(c) a family with `finally` blocks that switch fibers (outside the mini-language; Python-side expectations)."""
+(c) a family with `finally` blocks that switch fibers (outside the mini-language; Python-side expectations);
+(d) heap-state family: every per-fiber piece of state (local, local of a nested frame, captured variable, catch
+variable, handler spanning the switch, pending `return` / pending exception inside a finally block that yields,
+handed-over values) holds a FRESH heap object across suspensions while other fibers and the main script allocate;
+run in the debug build (collection at every allocation) and in release with gc=always, freed memory quarantined."""
 import json
 import os
 
@@ -622,6 +626,217 @@ def finally_family():
 
 
 # ------------------------------------------------------------------------------------------------
+# family (d): every per-fiber piece of state holds a FRESH heap object across a suspension during which
+# the other fibers and the main script allocate (not in the Coq mini-language: values are heap objects and the
+# collector matters; expectations come from the little per-shape model below)
+
+HEAP_PRELUDE = (
+    '#[constructor(new)] class Box {} '
+    'fn build(kind, tag, n) { if kind == 0 { var out = []; for i in 0..n { out.push("${tag}-${i}"); } return out; } '
+    'if kind == 1 { return "${tag}#${n}"; } var b = Box.new(); b.v = build(0, tag, n); return b; } '
+    'fn show(x) { if type(x) == Box { return "Box(${x.v})"; } return "${x}"; } '
+    'var stash = []; '
+    'fn churn(n) { var t = []; for i in 0..n { t.push([i, "tmp-${i}"]); } stash.push("kept-${n}"); return n; } '
+    'fn inner(kind, tag, n, ytag) { var t = build(kind, tag, n); var got = Fiber.yield(build(1, ytag, n)); return [show(t), show(got)]; } ')
+
+
+def hdisp(kind, tag, n):
+    vec = "[" + ", ".join("%s-%d" % (tag, i) for i in range(n)) + "]"
+    return vec if kind == 0 else ("%s#%d" % (tag, n) if kind == 1 else "Box(%s)" % vec)
+
+
+def hbuild(kind, tag, n):
+    return 'build(%d, "%s", %d)' % (kind, tag, n)
+
+
+# shape -> (body source, [stage], captures?)   stage(p, a) -> (lines printed by the fiber, display of the call's result | None)
+# every body takes one parameter p (a fresh object made by the caller); stage 0 receives p, later stages the resume value a
+def heap_shape(name, k, kind, n):
+    T = "f%d" % k
+    V = hdisp(kind, T, n)
+    Y = hdisp(1, "y" + T, n)
+    yv = hbuild(1, "y" + T, n)
+    bv = hbuild(kind, T, n)
+    if name == "local":      # a local holds the object
+        body = '|p| { var a = %s; var got = Fiber.yield(%s); print("%s local ${show(a)} ${show(got)} ${show(p)}"); return a; }' % (bv, yv, T)
+        st = [lambda p, a: ([], Y), lambda p, a: (["%s local %s %s %s" % (T, V, a, p)], V)]
+    elif name == "nested":   # a local of a nested function frame holds it (2 frames at the suspension)
+        body = '|p| { var r = inner(%d, "%s", %d, "y%s"); print("%s nested ${r} ${show(p)}"); return r; }' % (kind, T, n, T, T)
+        st = [lambda p, a: ([], Y), lambda p, a: (["%s nested [%s, %s] %s" % (T, V, a, p)], "[%s, %s]" % (V, a))]
+    elif name == "capture":  # only a closure over the fiber's local refers to it (open while suspended, closed afterwards)
+        body = '|p| { var c = %s; g%d = || c; Fiber.yield(%s); c = %s; Fiber.yield(%s); return 0; }' % (bv, k, yv, hbuild(kind, T + "b", n), yv)
+        st = [lambda p, a: ([], Y), lambda p, a: ([], Y), lambda p, a: ([], "0")]
+    elif name == "catchvar":  # the catch variable holds a thrown fresh object across a yield inside the catch block
+        body = '|p| { var keep = nil; try { throw %s; } catch e { Fiber.yield(%s); keep = e; } print("%s caught ${show(keep)} ${show(p)}"); return keep; }' % (bv, yv, T)
+        st = [lambda p, a: ([], Y), lambda p, a: (["%s caught %s %s" % (T, V, p)], V)]
+    elif name == "tryspan":  # a handler pushed before the suspension catches an object thrown after it
+        body = '|p| { var keep = nil; try { var got = Fiber.yield(%s); throw [show(got), show(%s)]; } catch e { keep = e; } print("%s span ${keep}"); return keep; }' % (yv, bv, T)
+        st = [lambda p, a: ([], Y), lambda p, a: (["%s span [%s, %s]" % (T, a, V)], "[%s, %s]" % (a, V))]
+    elif name == "retfin":   # `return <fresh>` pending while the finally block yields
+        body = '|p| { try { return %s; } finally { Fiber.yield(%s); print("%s cleanup ${show(p)}"); } }' % (bv, yv, T)
+        st = [lambda p, a: ([], Y), lambda p, a: (["%s cleanup %s" % (T, p)], V)]
+    elif name == "retfin2":  # two suspensions inside the finally block while the return is pending
+        body = ('|p| { try { return %s; } finally { Fiber.yield(%s); Fiber.yield(%s); print("%s cleanup2 ${show(p)}"); } }'
+                % (bv, yv, yv, T))
+        st = [lambda p, a: ([], Y), lambda p, a: ([], Y), lambda p, a: (["%s cleanup2 %s" % (T, p)], V)]
+    elif name == "result":   # the body's result / the argument of yield are fresh objects seen only by the caller
+        body = '|p| { var got = Fiber.yield(%s); return [show(got), show(p), show(%s)]; }' % (bv, bv)
+        st = [lambda p, a: ([], V), lambda p, a: ([], "[%s, %s, %s]" % (a, p, V))]
+    elif name == "excfin":   # an exception (fresh object) pending while the finally block yields; re-raised afterwards: ends the run
+        body = '|p| { try { throw %s; } finally { Fiber.yield(%s); print("%s cleanup3 ${show(p)}"); } }' % (bv, yv, T)
+        st = [lambda p, a: ([], Y), lambda p, a: (["%s cleanup3 %s" % (T, p)], ("raise", V))]
+    else:
+        raise ValueError(name)
+    return body, st
+
+
+HEAP_SHAPES = ["local", "nested", "capture", "catchvar", "tryspan", "retfin", "retfin2", "result"]
+
+
+def gen_heap_spec(rng, big=False):
+    nf = rng.randint(2, 4)
+    fibers = [{"shape": rng.choice(HEAP_SHAPES), "kind": rng.randrange(3), "n": rng.randint(0, 3)} for _ in range(nf)]
+    if rng.random() < 0.5:
+        fibers[rng.randrange(nf)]["shape"] = rng.choice(["retfin", "retfin2"])
+    nst = []
+    for i, f in enumerate(fibers):
+        nst.append(len(heap_shape(f["shape"], i + 1, f["kind"], f["n"])[1]))
+    todo = []
+    for i in range(nf):
+        todo += [i + 1] * (nst[i] if rng.random() < 0.85 else rng.randint(1, nst[i]))   # some fibers are abandoned suspended
+    # the order of the calls of one fiber is fixed, the interleaving is random
+    rng.shuffle(todo)
+    if rng.random() < 0.2:
+        # last: a fiber suspended in a finally block with its exception pending (syntactically inside the open class
+        # finally_switch_shares_flag; nobody else touches try/finally here, so it is expected to work)
+        for f in fibers:      # no other fiber throws or runs a finally block meanwhile (that is the open class: the VM-wide flag)
+            if f["shape"] in ("catchvar", "tryspan", "retfin", "retfin2"):
+                f["shape"] = rng.choice(["local", "nested", "capture", "result"])
+        nst = [len(heap_shape(f["shape"], i + 1, f["kind"], f["n"])[1]) for i, f in enumerate(fibers)]
+        todo = []
+        for i in range(nf):
+            todo += [i + 1] * (nst[i] if rng.random() < 0.85 else rng.randint(1, nst[i]))
+        rng.shuffle(todo)
+        fibers.append({"shape": "excfin", "kind": rng.randrange(2), "n": rng.randint(0, 3)})
+        todo.insert(rng.randint(0, len(todo)), nf + 1)
+        todo.append(nf + 1)
+    sched = []
+    for j, k in enumerate(todo):
+        sched.append(["call", k, rng.randrange(3), rng.randint(0, 2)])
+        r = rng.random()
+        m = rng.randint(5, 60 if big else 25)
+        if r < 0.45:
+            sched.append(["churn", m])
+        elif r < 0.75:
+            sched.append(["other", m])
+        if rng.random() < 0.35:
+            sched.append(["get", rng.randint(1, nf)])
+    return {"fibers": fibers, "sched": sched}
+
+
+def render_heap(spec):
+    """-> (source, expected result in the Spec's format)"""
+    fibers = spec["fibers"]
+    src = [HEAP_PRELUDE]
+    for i in range(len(fibers)):
+        src.append("var g%d = nil; var f%d = nil; " % (i + 1, i + 1))
+    stages = {}
+    for i, f in enumerate(fibers):
+        body, st = heap_shape(f["shape"], i + 1, f["kind"], f["n"])
+        stages[i + 1] = st
+        src.append("f%d = Fiber.new(%s); " % (i + 1, body))
+    src.append("var other = Fiber.new(|p| { var q = p; while true { q = Fiber.yield(churn(q)); } }); ")
+    out = []
+    pos = {k: 0 for k in stages}
+    pdisp = {}
+    cap = {}       # what the getter of fiber k shows
+    for j, step in enumerate(spec["sched"]):
+        if step[0] == "call":
+            k, kind, n = step[1], step[2], step[3]
+            if pos[k] >= len(stages[k]):
+                continue
+            tag = "a%d" % j
+            a = hdisp(kind, tag, n)
+            if pos[k] == 0:
+                pdisp[k] = a
+            lines, res = stages[k][pos[k]](pdisp[k], a)
+            f = fibers[k - 1]
+            if f["shape"] == "capture":
+                cap[k] = hdisp(f["kind"], "f%d" % k, f["n"]) if pos[k] == 0 else hdisp(f["kind"], "f%db" % k, f["n"])
+            pos[k] += 1
+            src.append('print("%d> ${show(f%d.call(%s))}"); ' % (k, k, hbuild(kind, tag, n)))
+            if isinstance(res, tuple):
+                return "".join(src), "|".join(out + lines) + "#Unhandled exception: " + res[1]
+            out += lines + ["%d> %s" % (k, res)]
+        elif step[0] == "churn":
+            src.append("churn(%d); " % step[1])
+        elif step[0] == "other":
+            src.append('print("o ${other.call(%d)}"); ' % step[1])
+            out.append("o %d" % step[1])
+        elif step[0] == "get":
+            k = step[1]
+            src.append('if g%d != nil { print("g%d ${show(g%d())}"); } ' % (k, k, k))
+            if k in cap:
+                out.append("g%d %s" % (k, cap[k]))
+    src.append('print(stash.len());')
+    out.append(str(sum(1 for s in spec["sched"] if s[0] in ("churn", "other"))))
+    return "".join(src), "|".join(out) + "#ok"
+
+
+def shrink_heap(spec, fails, budget):
+    """drop whole fibers (with their steps), then single steps, while the failure persists"""
+    cur = json.loads(json.dumps(spec))
+    k = len(cur["fibers"])
+    while k >= 1 and budget[0] > 0:
+        if len(cur["fibers"]) > 1:
+            cand = json.loads(json.dumps(cur))
+            del cand["fibers"][k - 1]
+            sch = []
+            for st in cand["sched"]:
+                if st[0] in ("call", "get"):
+                    if st[1] == k:
+                        continue
+                    if st[1] > k:
+                        st = [st[0], st[1] - 1] + st[2:]
+                sch.append(st)
+            cand["sched"] = sch
+            budget[0] -= 1
+            if fails(cand):
+                cur = cand
+        k -= 1
+    i = 0
+    while i < len(cur["sched"]) and budget[0] > 0:
+        if cur["sched"][i][0] == "call":
+            i += 1
+            continue
+        cand = json.loads(json.dumps(cur))
+        del cand["sched"][i]
+        budget[0] -= 1
+        if fails(cand):
+            cur = cand
+        else:
+            i += 1
+    return cur
+
+
+def run_heap(dbg, rel, specs):
+    """-> list of (spec, source, expected, [(mode, actual, uaf)] of the modes that differ)"""
+    rs = [render_heap(sp) for sp in specs]
+    r1 = run_robust(dbg, ["run - " + hx(src) for src, _ in rs], quarantine=True, case_timeout_ms=20000)
+    r2 = run_robust(rel, ["run gc=always " + hx(src) for src, _ in rs], quarantine=True, case_timeout_ms=20000)
+    res = []
+    for sp, (src, exp), a, b in zip(specs, rs, r1, r2):
+        diff = []
+        for mode, r in (("debug build, collection at every allocation, freed memory quarantined", a),
+                        ("release build, gc=always, freed memory quarantined", b)):
+            got = impl_result(r)
+            if got != exp or r.uaf:
+                diff.append((mode, got, r.uaf))
+        res.append((sp, src, exp, diff))
+    return res
+
+
+# ------------------------------------------------------------------------------------------------
 
 
 def shrink_prog(p, fails, budget):
@@ -879,6 +1094,43 @@ def run(ctx):
             else:
                 ctx.violation("finally block with a fiber switch misbehaves outside the known class", input=src, expected=exp, actual=got_m)
 
+    # --- family (d): fresh heap objects in every piece of per-fiber state across suspensions with allocation in between
+    if ctx.replay_only and ctx.replay_only.get("heap"):
+        hspecs = [ctx.replay_only["heap"]]
+    elif ctx.replay_only:
+        hspecs = []
+    else:
+        hspecs = [gen_heap_spec(rng, big=(i % 3 == 0)) for i in range(120 if quick else 1500)]
+        # the seeded shape, always: `return <fresh>` pending in a finally block that yields, others allocate meanwhile
+        for kind in range(3):
+            hspecs.append({"fibers": [{"shape": "retfin", "kind": kind, "n": 3}, {"shape": "local", "kind": 0, "n": 2}],
+                           "sched": [["call", 1, 0, 1], ["other", 40], ["call", 2, 1, 1], ["churn", 30], ["call", 1, 0, 0], ["call", 2, 0, 1]]})
+    t0 = time.time()
+    hres = run_heap(dbg, rel, hspecs)
+    log("[C09] %d heap-state programs x 2 builds in %.1fs" % (len(hspecs), time.time() - t0))
+    hbad = [x for x in hres if x[3]]
+    hshapes = {}
+    for sp in hspecs:
+        for f in sp["fibers"]:
+            hshapes[f["shape"]] = hshapes.get(f["shape"], 0) + 1
+    for n, (sp, src, exp, diff) in enumerate(hbad[:3]):
+        if n == 0 and not ctx.replay_only:
+            budget = [24]
+
+            def hfails(q):
+                return bool(run_heap(dbg, rel, [q])[0][3])
+            small = shrink_heap(sp, hfails, budget)
+            x = run_heap(dbg, rel, [small])[0]
+            if x[3]:
+                sp, src, exp, diff = x
+        mode, got, uaf = diff[0]
+        ctx.violation("a suspended fiber does not keep its own state: a fresh heap object held by a fiber (local, nested frame, "
+                      "captured variable, caught/pending exception, pending return in a finally block, handed-over value) is lost "
+                      "while other fibers allocate (%s%s)" % (mode, "; use of a reclaimed object detected" if uaf else ""),
+                      input=src, expected=exp, actual=got, heap=sp, family="heap-state")
+    if len(hbad) > 3:
+        notes.append("%d further heap-state programs differ" % (len(hbad) - 3))
+
     # keep the report short: at most five new violations (the first one shrunk) besides the known class
     kn = [v for v in ctx.violations if v.get("known_class")]
     nw = [v for v in ctx.violations if not v.get("known_class")]
@@ -888,7 +1140,7 @@ def run(ctx):
 
     sample_i = next((i for i in idx if cases[i][2] == "random" and cases[i][1] and nontrivial(cases[i][1])), idx[0] if idx else None)
     ctx.cov.update({
-        "evaluations": len(idx) + len(tsel) * 2 + len(fin),
+        "evaluations": len(idx) + len(tsel) * 2 + len(fin) + 2 * len(hspecs),
         "distinct_nontrivial": len(nontriv),
         "rule": "programs of the mini-language written along ONE explicit interleaving by a status-only simulation "
                 "(random: 1-4 fibers, 6-40 steps, styles busy/errors/captures/deep; exhaustive: EVERY sequence of switch points "
@@ -907,6 +1159,8 @@ def run(ctx):
         "switch_events_compared": n_sw,
         "release_traces_equal_dev": n_tr - cfg_bad,
         "finally_family": {"programs": len(fin), "in_known_class_failing": fin_known},
+        "heap_state_family": {"programs": len(hspecs), "runs": 2 * len(hspecs), "differing": len(hbad), "shapes": hshapes,
+                              "modes": ["debug + quarantine (collects at every allocation)", "release gc=always + quarantine"]},
         "poke_nil_on_resume": poke_nil,
     })
 
